@@ -3,7 +3,12 @@ EXTENDS Throttler, Json
 CONSTANT Depth
 LogAppend(h, r) == Append(h, r)
 LogLast(h, r) == <<r>>
-K(k, sub) == [k |-> k, sub |-> sub]
+\* work items per message class: how often the processing step (interceptor: processor.Validate/Save per element;
+\* resolver: the pool/storage lookup per hash) runs for such a message
+WorkOf(sub) == IF sub \in {"ok2", "okarray"} THEN 2
+               ELSE IF sub \in {"ok", "validatefail", "savefail", "whitelisted", "chunkcomplete", "prefok", "selfok", "notfound", "senderr"} THEN 1
+               ELSE 0
+K(k, sub) == [k |-> k, sub |-> sub, w |-> WorkOf(sub)]
 \* every branch of the callers (sub = which one; see harness/cmd/vh-throttler for what each does to the real code)
 NoneI == {K("none", "nilmsg"), K("none", "nildata"), K("none", "flood"), K("none", "topicflood")}
 MCKindsFull(p) ==
@@ -26,6 +31,8 @@ MCKindsFull(p) ==
 MCKindsSmall(p) ==
     IF p = "resolver" THEN {K("none", "flood"), K("checked", "ok"), K("checked", "badrequest")}
     ELSE {K("none", "flood"), K("checked", "ok"), K("checked", "invalid"), K("unchecked", "prefok")}
+\* companions for the "every class against a fixed partner" configuration
+MCPartners(p) == {K("checked", "ok"), K("none", "flood")}
 AllSubs == <<"nilmsg", "nildata", "flood", "topicflood", "badcreate", "invalid", "wrongversion", "noteligible", "othershard",
              "ok", "ok2", "okarray", "validatefail", "savefail", "whitelisted", "unmarshal", "empty", "topicflood2", "chunkerr",
              "chunkpart", "badrequest", "nilvalue", "badtype", "notfound", "senderr", "prefok", "selfok", "prefinvalid",
